@@ -16,7 +16,7 @@ import warnings
 
 from .. import tlc
 
-INVS = ["InvNoLogin", "InvNoneFalse", "InvDisableDisables", "InvHashKept"]
+INVS = ["InvMemoCurrent", "InvNoLogin", "InvNoneFalse", "InvDisableDisables", "InvHashKept"]
 PROPS = ["RestoreExact", "RestoreAlways", "EnableNormal"]
 KINDS = tlc.Raw('{<<"unix1">>, <<"unix2">>, <<"django">>, <<"django", "unix1">>, <<"django", "unix2">>, <<"unix1", "django">>, <<"unix2", "django">>}')
 SCHEMES = ["md5_crypt", "des_crypt", "sha256_crypt", "sha512_crypt", "bcrypt", "pbkdf2_sha256", "ldap_salted_sha1", "ldap_md5", "apr_md5_crypt",
@@ -107,9 +107,9 @@ class World:
         return "other:" + t[:20]
 
 
-def call(fn, *a):
+def call(fn, *a, **kw):
     try:
-        return ("ok", fn(*a))
+        return ("ok", fn(*a, **kw))
     except ValueError as e:
         return ("ValueError", str(e)[:80])
     except TypeError as e:
@@ -188,10 +188,17 @@ def replay_beh(chk, beh, scheme, first, rnd):
             r = call(W.ctx.enable, arg)
             got = [r[0], W.abstract(r[1])] if r[0] == "ok" else [r[0]]
         elif op == "reload":
-            cfg = dict(schemes=W.without_real if st["arg"] == "drop" else W.with_real, **W.kw)
-            if st["arg"] == "drop" and cfg.get("deprecated") == [scheme]:
+            what, _, how = st["arg"].partition(":")
+            cfg = dict(schemes=W.without_real if what == "drop" else W.with_real, **W.kw)
+            if what == "drop" and cfg.get("deprecated") == [scheme]:
                 cfg.pop("deprecated")           # (the policy named the scheme that is being dropped)
-            r = call(W.ctx.load, cfg) if rnd.random() < .7 else call(W.ctx.load, __import__("passlib.context").context.CryptContext(**cfg).to_string())
+            if how == "update":
+                upd = dict(schemes=cfg["schemes"], deprecated=cfg.get("deprecated", []))      # in place: the other options stay
+                r = call(W.ctx.update, **upd) if rnd.random() < .6 else call(W.ctx.load, upd, update=True)
+            elif how == "text":
+                r = call(W.ctx.load, __import__("passlib.context").context.CryptContext(**cfg).to_string())
+            else:
+                r = call(W.ctx.load, cfg)
             got = [r[0]]
         elif op == "is_enabled":
             r = call(W.ctx.is_enabled, arg)
@@ -236,6 +243,18 @@ def run(chk):
     for i, b in enumerate(behs):
         replay_beh(chk, b, schemes[i % len(schemes)], (i // len(schemes)) % 2 == 1, rnd)
         chk.traces += 1
+    # an account that does not exist, across reconfigurations by every route (load of a mapping / of text / update in place)
+    nb3 = 240 if quick else 2400
+    r3 = tlc.run_instance("MC_Disabled", dict(Kinds=KINDS, MaxOps=7, DoEmit=True, Greedy=False), name="C18_sim_none", invariants=INVS, init="InitNone",
+                          action_constraint="Emit", next="SimNextNone", simulate=f"num={nb3}", depth=7, seed=chk.seed + 7, workers=1, coverage=False)
+    chk.add_tlc(f"MC_Disabled simulation, missing account x reload routes ({nb3} histories)", r3)
+    routes = set()
+    for i, b in enumerate(split(r3.emits)):
+        routes |= {s_["arg"] for s_ in b if s_["op"] == "reload"}
+        replay_beh(chk, b, schemes[i % len(schemes)], (i // len(schemes)) % 2 == 1, rnd)
+        chk.traces += 1
+    if len(routes) < 6:
+        raise tlc.MachineryError(f"C18: missing-account simulation reached only the routes {sorted(routes)}")
     # catch-all real schemes, listed after the disabled-account handlers
     r2 = tlc.run_instance("MC_Disabled", dict(Kinds=KINDS, MaxOps=5, DoEmit=False, Greedy=True), name="C18_mc_greedy", invariants=INVS, properties=PROPS, action_constraint="Emit")
     chk.add_tlc("MC_Disabled exhaustive, catch-all real scheme", r2)
